@@ -114,9 +114,13 @@ def check(ck):
                "the ignore list is %s: it must combine the object's own list (attribute named by ignore_attribute) AND the ignore "
                "argument" % prov.show(t)[:110], q.loc(fd, iln))
     du = [(n, c) for n in g.live_nodes() for c in node_calls(n) if call_name(c) == "difference_update"]
-    loops = [n for n in g.live_nodes() if n.kind == "for_body" and dump(n.ast.iter) == "fields"]
-    okk = len(du) == 1 and len(loops) == 1 and du[0][0].id in dom[loops[0].id] and dump(du[0][1].func.value) == "fields" and \
-        dump(du[0][1].args[0]) == ilv
+    def _is_field_set(n_, e_):
+        t_ = prov.origin(g, n_, e_)
+        return all(a_[0] == "call" and a_[1] == ("global", "_find_fields") for a_ in prov.value_alts(t_))
+    loops = [n for n in g.live_nodes() if n.kind == "for_body" and (dump(n.ast.iter) == "fields" or _is_field_set(n, n.ast.iter))]
+    okk = len(du) == 1 and len(loops) == 1 and du[0][0].id in dom[loops[0].id] and \
+        (dump(du[0][1].func.value) == "fields" or _is_field_set(du[0][0], du[0][1].func.value)) and \
+        len(du[0][1].args) == 1 and (dump(du[0][1].args[0]) == ilv or prov.origin(g, du[0][0], du[0][1].args[0]) == t)
     ck.require(okk, "C20.3", "%s: fields.difference_update(%s) before the field loop" % (where, ilv), "dominates the loop",
                "ignored names are not removed from the field set before the fields are dumped", q.loc(fd, iln))
     ff = q.call_sites(prog, fd, lambda r, c: q.is_func(r, "jsonclass._find_fields"))
